@@ -118,7 +118,7 @@ PROPS["C12"] = dict(
               "Kust.C12.elementIndexer_ne_panic", "Kust.C12.Witness.elementIndexerOld_panics", "Kust.Res.prevIds_no_panic",
               "Kust.Res.layers_no_panic", "Kust.Res.Witness.nameless_prevIds_panics", "Kust.C12.panic_sites_covered",
               "Kust.C12.panic_sites_all_reviewed"],
-    components=["fns.lookup", "fns.setelem", "res.layers", "crd.config"],
+    components=["fns.lookup", "fns.setelem", "res.layers", "crd.config", "path.split"],
     oracle=True,
     n_corr={"quick": 2000, "thorough": 20000}, n_oracle={"quick": 1500, "thorough": 20000},
     technique="Lean 4 proof (explicit panic outcomes in the models; no_panic theorems; totality = termination) + correspondence incl. malformed stream + structural/byte mutation search in worker processes (recover, timeout, exit detection)",
